@@ -194,7 +194,8 @@ def _linked(v, e, p, it):
         # constructed on the hand-over's result, or resolved from it (sync)
         for c in p.calls():
             if c.d["func"] == ("class", v[1]) if v[0] == "new" else False:
-                if it.site(c.node) == v[2] and any(isinstance(a, tuple) and a[:2] == res_prefix for a in c.d["args"]):
+                vals = list(c.d["args"]) + [x for k_, x in c.d["kwargs"]]
+                if it.site(c.node) == v[2] and any(isinstance(a, tuple) and a[:2] == res_prefix for a in vals):
                     return True
         for c in p.calls():
             if q.call_name(c) in ("set_result",) and q.recv(c) == v and c.d["args"] and isinstance(c.d["args"][0], tuple) and c.d["args"][0][:2] == res_prefix:
@@ -208,64 +209,75 @@ def _linked(v, e, p, it):
 
 
 def _deferred(ctx, rep):
+    """retry and throttle hand the submission to the delegate later, from their worker loop"""
     prog = ctx.prog
-    for qual, futfield_link in (("RetryExecutor._submit_now", "retry"), ("ThrottleExecutor._do_submit", "throttle")):
-        m = prog.fn(qual)
-        ci = m.owner
-        ps, it = ctx.paths(m, ci, depth=2, inline=_inline_policy(ci))
-        J = ("param", m.params[1])
+    from ..roles import Layer, record_roles, std_inline
+    for cname in ("RetryExecutor", "ThrottleExecutor"):
+        ci = prog.cls(cname)
+        lay = Layer(ctx, ci)
+        rep.require(lay.loop is not None, "%s: worker loop not found" % cname)
+        qfield, rec_cls, R = record_roles(ctx, ci)
+        ps, it = ctx.paths(lay.loop, lay.loop.owner, depth=8, inline=std_inline, maxpaths=20000)
         nh = 0
         for p in ps:
             if p.status == "raise":
                 continue
-            subs = [e for e in p.calls() if q.call_name(e) == "submit" and q.recv(e) == ("attr", SELF, "_delegate")]
-            done = any(v for t, v in p.branch_atoms() if isinstance(t, tuple) and t[0] == "call" and t[1] == ("attr", ("attr", J, "future"), "done"))
-            if done:
-                rep.ob("R-ONCE", "%s: no hand-over for a finished future" % qual, not subs, "", where_of(m), trace_of(p))
-                continue
-            nh += 1
-            rep.ob("R-ONCE", "%s: exactly one delegate submit per job" % qual, len(subs) == 1, "%d delegate submits" % len(subs), where_of(m), trace_of(p))
-            if len(subs) != 1:
-                continue
-            e = subs[0]
-            ok = e.d["args"] == (("attr", J, "fn"), ("star", ("attr", J, "args"))) and tuple(e.d["kwargs"]) == ((None, ("attr", J, "kwargs")),)
-            rep.ob("R-FORWARD", "%s: submits (job.fn, *job.args, **job.kwargs)" % qual, ok, "submits (%s; %s)" % ([fmt(a) for a in e.d["args"]], [(k, fmt(v)) for k, v in e.d["kwargs"]]), where_of(m, e.node), trace_of(p, e.seq))
-            res_prefix = ("call", e.d["func"])
-            if futfield_link == "retry":
-                st = [s for s in p.evs("store") if s.d["target"] == ("attr", ("attr", J, "future"), "delegate_future")]
-                ok = len(st) == 1 and st[0].d["value"][:2] == res_prefix
-                regs = [c for c in p.calls() if q.call_name(c) == "add_done_callback" and isinstance(q.recv(c), tuple) and q.recv(c)[:2] == res_prefix]
-                ok = ok and len(regs) == 1
-            else:
-                sd = [c for c in p.calls() if q.call_name(c) == "_set_delegate" and q.recv(c) == ("attr", J, "future")]
-                ok = len(sd) == 1 and sd[0].d["args"] and sd[0].d["args"][0][:2] == res_prefix
-            rep.ob("R-LINK", "%s: the delegate future is linked to this job's own future" % qual, ok, "", where_of(m), trace_of(p))
-        rep.ob("R-ONCE", "%s: has hand-over paths" % qual, nh > 0, "", where_of(m))
-    # throttle: each dequeued job is handed over exactly once
-    li = prog.fn("throttle:_submit_loop_iter")
-    ds = prog.fn("ThrottleExecutor._do_submit")
-    ps, it = ctx.paths(li, None, depth=0)
-    for p in ps:
-        pops = [e for e in p.calls() if q.call_name(e) == "popleft"]
-        hand = [e for e in p.calls() if e.d["callee"] is ds]
-        if not pops:
-            rep.ob("R-ONCE", "_submit_loop_iter: nothing is handed over without a dequeue", not hand, "", where_of(li), trace_of(p))
-            continue
-        popped = [("call", e.d["func"], e.d["args"], e.d["kwargs"], None) for e in pops]
-        ok = len(hand) == len(pops) and all(h.d["args"][:1] == (pj,) for h, pj in zip(hand, popped))
-        rep.ob("R-ONCE", "_submit_loop_iter: each dequeued job is handed over exactly once", ok, "dequeued %d, handed over %s" % (len(pops), [fmt(h.d["args"][0]) for h in hand]), where_of(li), trace_of(p))
-    # throttle submit: record fields (also in _entry) ; retry callback routing
-    rex = prog.cls("RetryExecutor")
-    cb = rex.methods.get("_delegate_callback")
-    ps, it = ctx.paths(cb, rex, depth=0)
-    DF = ("param", cb.params[1])
-    for p in ps:
-        found = [b for b in p.evs("branch") if isinstance(b.d[0], tuple) and b.d[0][0] == "cmp" and b.d[0][1] in ("==", "is") and DF in (b.d[0][2], b.d[0][3]) and b.d[1] is True]
-        cf = [e for e in p.calls() if e.d["callee"] is not None and e.d["callee"].name == "copy_future"]
-        if cf:
-            other = found[0].d[0][2] if found and found[0].d[0][3] == DF else (found[0].d[0][3] if found else None)
-            ok = bool(found) and isinstance(other, tuple) and other[0] == "attr" and other[2] == "delegate_future" and cf[0].d["args"] == (DF, ("attr", other[1], "future"))
-            rep.ob("R-LINK", "_delegate_callback: the outcome goes to the future of the job whose delegate completed", ok, "job selected by %s, copy_future(%s)" % (fmt(found[0].d[0]) if found else None, [fmt(a) for a in cf[0].d["args"]]), where_of(cb), trace_of(p))
+            subs = [e for e in p.calls() if q.call_name(e) == "submit" and isinstance(q.recv(e), tuple) and q.recv(e)[0] == "attr" and q.recv(e)[2] == "_delegate" and it.type_of(q.recv(e)[1], p) == "C:" + ci.key]
+            pops = [e for e in p.calls() if q.call_name(e) in ("popleft", "pop") and isinstance(q.recv(e), tuple) and q.recv(e)[0] == "attr" and q.recv(e)[2] == qfield]
+            if cname == "ThrottleExecutor":
+                popped = [q.result_of(e) for e in pops]
+                jobs = [e.d["args"][0][1] for e in subs if e.d["args"] and isinstance(e.d["args"][0], tuple) and e.d["args"][0][0] == "attr"]
+                rep.ob("R-ONCE", "%s loop: each dequeued job is handed over exactly once" % cname, sorted(map(repr, popped)) == sorted(map(repr, jobs)), "dequeued %d, handed over %s" % (len(pops), [fmt(j) for j in jobs]), where_of(lay.loop), trace_of(p))
+            for e in subs:
+                nh += 1
+                a = e.d["args"]
+                job = a[0][1] if a and isinstance(a[0], tuple) and a[0][0] == "attr" and a[0][2] == R["fn"] else None
+                ok = job is not None and a == (("attr", job, R["fn"]), ("star", ("attr", job, R["args"]))) and tuple(e.d["kwargs"]) == ((None, ("attr", job, R["kwargs"])),)
+                rep.ob("R-FORWARD", "%s loop: the hand-over submits the job's own (fn, *args, **kwargs)" % cname, ok, "submits (%s; %s)" % ([fmt(x) for x in a], [(k, fmt(v)) for k, v in e.d["kwargs"]]), where_of(e.fn, e.node), trace_of(p, e.seq))
+                if job is None:
+                    continue
+                others = [x for x in subs if x is not e and x.d["args"] and x.d["args"][0] == a[0]]
+                rep.ob("R-ONCE", "%s loop: exactly one delegate submit per job" % cname, not others, "the same job is submitted %d times" % (1 + len(others)), where_of(e.fn, e.node), trace_of(p))
+                pre = ("call", e.d["func"])
+                JF = ("attr", job, R["future"])
+                linked = False
+                for x in p.events:
+                    if x.seq < e.seq:
+                        continue
+                    if x.kind == "store" and isinstance(x.d["target"], tuple) and x.d["target"][0] == "attr" and x.d["target"][1] == JF and isinstance(x.d["value"], tuple) and x.d["value"][:2] == pre:
+                        linked = True
+                    if x.kind == "call" and q.recv(x) == JF and x.d["args"] and isinstance(x.d["args"][0], tuple) and x.d["args"][0][:2] == pre:
+                        linked = True
+                regs = []
+                for c in p.calls():
+                    if q.call_name(c) == "add_done_callback" and isinstance(q.recv(c), tuple) and q.recv(c)[:2] == pre and c.d["args"]:
+                        cbv = c.d["args"][0]
+                        if isinstance(cbv, tuple) and cbv[0] == "partial":
+                            cbv = cbv[1]
+                        # the executor's own completion callback (the future's mirroring callback is the link itself)
+                        if isinstance(cbv, tuple) and cbv[0] == "attr" and it.type_of(cbv[1], p) == "C:" + ci.key:
+                            regs.append(c)
+                rep.ob("R-LINK", "%s loop: the delegate future is linked to this job's own future, one completion callback" % cname, linked and len(regs) == 1, "linked to the job's future: %s; callbacks registered on the delegate future: %d" % (linked, len(regs)), where_of(e.fn, e.node), trace_of(p, e.seq))
+        rep.ob("R-ONCE", "%s loop: has hand-over paths" % cname, nh > 0, "", where_of(lay.loop))
+        if cname == "RetryExecutor" and lay.callback is not None:
+            cb = lay.callback
+            ps, it = ctx.paths(cb, ci, depth=8, inline=std_inline, maxpaths=20000)
+            DF = ("param", cb.params[1])
+            for p in ps:
+                if p.status != "return":
+                    continue
+                found = [b for b in p.evs("branch") if isinstance(b.d[0], tuple) and b.d[0][0] == "cmp" and b.d[0][1] in ("==", "is") and DF in (b.d[0][2], b.d[0][3]) and b.d[1] is True]
+                resolved = [e for e in p.calls() if q.call_name(e) in ("set_result", "set_exception", "set_exception_info") and e.d["callee"] is None]
+                if not resolved:
+                    continue
+                other = None
+                if found:
+                    other = found[0].d[0][2] if found[0].d[0][3] == DF else found[0].d[0][3]
+                r = q.recv(resolved[0])
+                if isinstance(r, tuple) and r[0] == "super":
+                    r = r[2]
+                ok = isinstance(other, tuple) and other[0] == "attr" and r == ("attr", other[1], R["future"])
+                rep.ob("R-LINK", "retry callback: the outcome goes to the future of the job whose delegate completed", ok, "job selected by %s, outcome set on %s" % (fmt(found[0].d[0]) if found else None, fmt(r)), where_of(cb), trace_of(p))
 
 
 def _copy_helpers(ctx, rep):
@@ -295,9 +307,11 @@ def _copy_helpers(ctx, rep):
     for p in ps:
         c = [e for e in p.calls() if e.d["callee"] is ce]
         rep.require(len(c) == 1, "copy_future_exception: expected one copy_exception call per path")
-        a = c[0].d["args"]
-        ok = len(a) >= 2 and a[0] == F2 and (a[1][:2] == ("call", ("attr", F1, "exception")) or (a[1][0] == "unpack" and a[1][2] == 0 and a[1][1][:2] == ("call", ("attr", F1, "exception_info"))))
-        rep.ob("R-EXC-ID", "copy_future_exception passes the source future's own exception object", ok, "copy_exception(%s)" % [fmt(x) for x in a], where_of(cfe, c[0].node), trace_of(p))
+        from ..roles import bound
+        b = bound(c[0], prog)
+        a1 = b.get(ce.params[1])
+        ok = b.get(ce.params[0]) == F2 and isinstance(a1, tuple) and (a1[:2] == ("call", ("attr", F1, "exception")) or (a1[0] == "unpack" and a1[2] == 0 and a1[1][:2] == ("call", ("attr", F1, "exception_info"))))
+        rep.ob("R-EXC-ID", "copy_future_exception passes the source future's own exception object", ok, "copy_exception(%s)" % dict((k, fmt(v)) for k, v in b.items() if isinstance(v, tuple)), where_of(cfe, c[0].node), trace_of(p))
     ts = prog.fn("common:try_set_result")
     ps, it = ctx.paths(ts, None, depth=0)
     for p in ps:
